@@ -252,6 +252,50 @@ theorem riffPayload64_eq (s : MuxState) (hx : needsVP8X s = true) (hsz : exactRi
       have hb := hf f hfm
       rw [subChunkSize_eq f.data (by omega)]
 
+/-- the uint64 running total of `assembleExtended` is the exact size as long as no single chunk size wraps -/
+theorem riffPayload64_eq' (s : MuxState) (hx : needsVP8X s = true)
+    (h1 : optLen s.iccData < 4294967296) (h2 : optLen s.exifData < 4294967296) (h3 : optLen s.xmpData < 4294967296)
+    (hf : ∀ f ∈ s.frames, frameLen (isAnimated s) f.data < 4294967296) :
+    riffPayload64 s = exactRiffSize s := by
+  unfold exactRiffSize
+  simp only [hx, if_true]
+  unfold riffPayload64
+  simp only []
+  rw [optChunkSize_eq _ h1, optChunkSize_eq _ h2, optChunkSize_eq _ h3]
+  cases ha : isAnimated s with
+  | true =>
+    rw [ha] at hf
+    simp only [if_true]
+    rw [foldl_add _ (fun f => frameLen true f.data) s.frames]
+    · simp only [chunkHeaderSize, vp8xChunkSize, animChunkSize]; omega
+    · intro f hfm acc
+      have hb := hf f hfm
+      have hfl := frameLen_true f.data
+      have hev := frameLen_false_even f.data
+      rw [subChunkSize_eq f.data (by omega), anmf_term _ _ hev (by omega)]
+      omega
+  | false =>
+    rw [ha] at hf
+    simp only [Bool.false_eq_true, if_false]
+    rw [foldl_add _ (fun f => frameLen false f.data) s.frames]
+    · simp only [chunkHeaderSize, vp8xChunkSize]; omega
+    · intro f hfm acc
+      have hb := hf f hfm
+      rw [subChunkSize_eq f.data (by omega)]
+
+/-- mux.go assembleExtended refuses, with an error and before writing anything, a file whose RIFF
+    payload would not fit 32 bits — provided no single frame's chunk size wraps on its own. -/
+theorem assemble_too_large (s : MuxState) (hv : validate s = .ok ()) (hx : needsVP8X s = true)
+    (h1 : optLen s.iccData < 4294967296) (h2 : optLen s.exifData < 4294967296) (h3 : optLen s.xmpData < 4294967296)
+    (hf : ∀ f ∈ s.frames, frameLen (isAnimated s) f.data < 4294967296)
+    (hbig : exactRiffSize s > 4294967295) : assemble s = .err .other := by
+  unfold assemble
+  rw [hv]
+  simp only [Res.bind_ok, hx, Bool.not_true, Bool.false_eq_true, if_false]
+  unfold assembleExtended
+  simp only [riffPayload64_eq' s hx h1 h2 h3 hf]
+  rw [if_pos hbig]
+
 theorem validate_frames_ne {s : MuxState} (hv : validate s = .ok ()) : s.frames ≠ [] := by
   intro h
   unfold validate validateWith at hv
